@@ -3,8 +3,7 @@ from props import gxcommon as G
 
 
 def run(tier, seed):
-    res = G.gx(G.STMT_METHODS, ["term", "accept"], "C05/gx", tier,
-               drop=lambda o: "/accept/" in o.name and "static_assert-declaration" not in o.name)
+    res = G.gx(G.STMT_METHODS, ["term", "accept"], "C05/gx", tier)
     try:
         from props import switchcases
         res.add(switchcases.obligations(tier))
